@@ -162,7 +162,9 @@ def gen_script(rng, files, tmp):
             toks += [c, str(b)]
             exp.append(("mouseUp", b))
         elif c == "type":
-            text = rng.choice(["hello", "", "a b", "Hi!#", "x"])
+            # an argument is typed character by character as it stands (TAB, LF, CR are characters, not key names: those
+            # are typefile's reading of a FILE)
+            text = rng.choice(["hello", "", "a b", "Hi!#", "x", "a\tb", "l1\nl2", "\n"])     # (CR would be rewritten by text-mode reading when the word sits in a script file)
             toks += [c, text]
             for ch in text:
                 exp += [("keyPress", ch), ("t",)]
